@@ -48,6 +48,23 @@ pub fn tgt_f(a: i32, out: &mut i32) {
     *out = std::hint::black_box(a - 6000);
 }
 
+/// second functions of the same shapes: the fake built by one source line may be installed on a different
+/// function in a later lifetime
+#[inline(never)]
+pub fn tgt_a2(a: i32) -> i32 {
+    std::hint::black_box(a - 1500)
+}
+#[inline(never)]
+pub fn tgt_b2(a: i32) -> i32 {
+    std::hint::black_box(a - 2500)
+}
+thread_local! {
+    static USE_ALT_TARGET: std::cell::Cell<bool> = const { std::cell::Cell::new(false) };
+}
+fn alt() -> bool {
+    USE_ALT_TARGET.with(|c| c.get())
+}
+
 #[derive(Clone, Copy, Debug, PartialEq)]
 pub enum Arm {
     /// fn, when + returns + times
@@ -84,6 +101,8 @@ fn make(arm: Arm) -> (FuncPtr, CallCountVerifier) {
 
 fn install(inj: &mut InjectorPP, arm: Arm, pair: (FuncPtr, CallCountVerifier)) {
     match arm {
+        Arm::WhenRet if alt() => inj.when_called(injectorpp::func!(fn (tgt_a2)(i32) -> i32)).will_execute(pair),
+        Arm::Ret if alt() => inj.when_called(injectorpp::func!(fn (tgt_b2)(i32) -> i32)).will_execute(pair),
         Arm::WhenRet => inj.when_called(injectorpp::func!(fn (tgt_a)(i32) -> i32)).will_execute(pair),
         Arm::Ret => inj.when_called(injectorpp::func!(fn (tgt_b)(i32) -> i32)).will_execute(pair),
         Arm::UnitAssign => inj.when_called(injectorpp::func!(fn (tgt_c)(i32, &mut i32))).will_execute(pair),
@@ -96,7 +115,19 @@ fn install(inj: &mut InjectorPP, arm: Arm, pair: (FuncPtr, CallCountVerifier)) {
 /// one call; returns Ok(value) / Err(panic class)
 fn call(arm: Arm, matching: bool) -> Result<i64, String> {
     let a = if matching { 7 } else { 8 };
+    if arm == Arm::UnitAssign {
+        // the out-parameter lives outside the catch: a call that was rejected must not have assigned to it
+        let mut o = -1;
+        let r = std::panic::catch_unwind(std::panic::AssertUnwindSafe(|| tgt_c(a, &mut o)));
+        return match r {
+            Ok(()) => Ok(o as i64),
+            Err(p) => Err(format!("{}{}", panicobs::classify(&panicobs::payload_msg(&p)), if o != -1 { "|assigned-although-rejected" } else { "" })),
+        };
+    }
+    let use_alt = alt();
     let r = std::panic::catch_unwind(|| match arm {
+        Arm::WhenRet if use_alt => tgt_a2(a) as i64,
+        Arm::Ret if use_alt => tgt_b2(a) as i64,
         Arm::WhenRet => tgt_a(a) as i64,
         Arm::Ret => tgt_b(a) as i64,
         Arm::UnitAssign => {
@@ -143,6 +174,99 @@ fn counter_of(v: &CallCountVerifier) -> Option<&'static AtomicUsize> {
     }
 }
 
+/// Calls that race with the installation itself: a worker thread calls the target the moment it sees the fully
+/// written entry patch; that call is absorbed by THIS installation (budget 1): it must be admitted and counted,
+/// whatever earlier installations through the same call site absorbed. Returns the number of such calls seen.
+fn race_trials(ctx: &Ctx, first_idx: u64) -> u64 {
+    let race_rounds: u64 = if ctx.thorough { 40_000 } else { 3_000 };
+    let mut race_hits = 0u64;
+    for (ri, &arm) in [Arm::WhenRet, Arm::Ret].iter().enumerate() {
+        let idx = first_idx + ri as u64;
+        if !ctx.mine(idx) {
+            continue;
+        }
+        let class = format!("{:?}/N=1/call-races-with-the-installation", arm);
+        out::intent(idx, &class, &J::new().n("rounds", race_rounds).s("crash_sig", "install-race"));
+        let taddr = match arm {
+            Arm::WhenRet => tgt_a as usize,
+            _ => tgt_b as usize,
+        };
+        // learn what the patched entry looks like (same trampoline page every time in practice)
+        N_STATIC.store(0, Ordering::SeqCst);
+        let snap: Vec<u8> = {
+            let mut inj = ip::lib(InjectorPP::new);
+            ip::lib(|| install(&mut inj, arm, make(arm)));
+            let b = crate::maps::read_vec(taddr, 5).unwrap_or_default();
+            let _ = std::panic::catch_unwind(std::panic::AssertUnwindSafe(|| ip::lib(|| drop(inj))));
+            b
+        };
+        let snap = Arc::new(snap);
+        let mut sig = String::new();
+        let mut d = J::new();
+        let mut rounds_done = 0u64;
+        let mut early = 0u64;
+        for _ in 0..race_rounds {
+            N_STATIC.store(1, Ordering::SeqCst);
+            let stop = Arc::new(AtomicBool::new(false));
+            let (snap2, stop2) = (snap.clone(), stop.clone());
+            let h = std::thread::spawn(move || {
+                let mut buf = [0u8; 5];
+                loop {
+                    unsafe { std::ptr::copy_nonoverlapping(taddr as *const u8, buf.as_mut_ptr(), 5) };
+                    if buf[..] == snap2[..] {
+                        return Some(call(arm, true));
+                    }
+                    if stop2.load(Ordering::Relaxed) {
+                        return None;
+                    }
+                    std::hint::spin_loop();
+                }
+            });
+            let pair = make(arm);
+            let counter = counter_of(&pair.1).unwrap();
+            let mut inj = ip::lib(InjectorPP::new);
+            ip::lib(|| install(&mut inj, arm, pair));
+            // the worker has seen (or will at once see) the patch: wait for its single call
+            let t0 = Instant::now();
+            while !h.is_finished() && t0.elapsed().as_millis() < 200 {
+                std::hint::spin_loop();
+            }
+            stop.store(true, Ordering::SeqCst);
+            let r = h.join().unwrap_or(None);
+            let count = counter.load(Ordering::SeqCst);
+            let (dres, _) = panicobs::observe(|| ip::lib(|| drop(inj)));
+            rounds_done += 1;
+            match r {
+                Some(Ok(v)) if v == faked_value(arm) => {
+                    race_hits += 1;
+                    if count != 1 || dres.is_err() {
+                        sig = "call-absorbed-during-installation-was-not-counted".into();
+                        d = J::new().n("counter", count).s("exit", &dres.err().unwrap_or_else(|| "no-panic".into())).n("round", rounds_done);
+                        break;
+                    }
+                }
+                Some(Ok(_)) => early += 1, // reached the original: not a call of this installation
+                Some(Err(e)) => {
+                    // the worker called through the patch it saw and was turned away although this installation
+                    // has a budget of one and nobody else calls: calls of an earlier installation were held against it
+                    race_hits += 1;
+                    sig = "first-call-of-this-installation-rejected-on-account-of-earlier-ones".into();
+                    d = J::new().s("call", &e).n("counter", count).s("exit", &dres.err().unwrap_or_else(|| "no-panic".into())).n("round", rounds_done);
+                    break;
+                }
+                None => {}
+            }
+        }
+        let d = d.n("rounds", rounds_done).n("calls_that_reached_the_fake", race_hits).n("calls_that_reached_the_original", early);
+        if sig.is_empty() && race_hits == 0 {
+            out::outcome(idx, &class, Verdict::Inconclusive, "the-worker-never-saw-the-patch", &d);
+        } else {
+            out::outcome(idx, &class, if sig.is_empty() { Verdict::Held } else { Verdict::Violated }, &sig, &d);
+        }
+    }
+    race_hits
+}
+
 // ---------------------------------------------------------------------------------- C06
 pub fn run_c06(ctx: &Ctx) {
     let ns: [usize; 8] = [0, 1, 2, 3, 5, 8, 16, 64];
@@ -181,6 +305,14 @@ pub fn run_c06(ctx: &Ctx) {
             }
         }
     }
+    // budgets at and beyond the 32-bit boundary (no such number of calls is made: k is 0 or 1)
+    for &arm in &ARMS {
+        for &n in &[(1usize << 31) - 1, 1usize << 31, 1usize << 32, (1usize << 32) + 1, usize::MAX] {
+            for k in [0usize, 1] {
+                trials.push((arm, n, k, 1, 0, usize::MAX));
+            }
+        }
+    }
     // boundary trials: exactly N matching calls, each on its own thread, released together with several
     // NON-matching calls on other threads (a rejected call must never take a slot of the budget, not even
     // for a moment)
@@ -210,7 +342,7 @@ pub fn run_c06(ctx: &Ctx) {
         }
         let mut rng = Rng::new(ctx.seed ^ hash64(idx ^ 0xC06));
         let m = if m_override != usize::MAX { m_override } else if has_when(arm) { rng.below(4) as usize } else { 0 };
-        let class = format!("{:?}/N={}/k={}/t={}{}{}", arm, n, k.min(n + 2), t, if m > 0 { "/with-nonmatching" } else { "" }, if m_override == usize::MAX { "" } else if m_override == 0 { "/admission-race" } else { "/boundary" });
+        let class = format!("{:?}/N={}/k={}/t={}{}{}", arm, n, k.min(n.saturating_add(2)), t, if m > 0 { "/with-nonmatching" } else { "" }, if m_override == usize::MAX { "" } else if m_override == 0 { "/admission-race" } else { "/boundary" });
         out::intent(idx, &class, &J::new().n("N", n).n("k", k).n("threads", t).n("nonmatching", m).n("rep", rep).s("crash_sig", &format!("{:?}", arm)));
         N_STATIC.store(n, Ordering::SeqCst);
         let pair = make(arm);
@@ -313,6 +445,8 @@ pub fn run_c06(ctx: &Ctx) {
             sig = "non-matching-call-not-rejected".into();
         } else if wrong_value != 0 {
             sig = "admitted-call-returned-wrong-value".into();
+        } else if results.iter().any(|r| r.1.as_ref().err().map(|e| e.contains("|assigned")).unwrap_or(false)) {
+            sig = "rejected-call-performed-the-fakes-assignment".into();
         } else if count_after_calls != k {
             sig = if m > 0 && count_after_calls == k + m { "non-matching-calls-were-counted".into() } else { "counter-differs-from-matching-calls".into() };
         } else {
@@ -347,86 +481,7 @@ pub fn run_c06(ctx: &Ctx) {
         let sig = if !sig.is_empty() && !harness_reset { format!("{}/counter-left-to-the-library", sig) } else { sig };
         out::outcome(idx, &class2, if sig.is_empty() { Verdict::Held } else { Verdict::Violated }, &sig, &d);
     }
-    // ---- calls that race with the installation itself: a worker thread calls the target the moment it sees
-    // the fully written entry patch; that call is absorbed by THIS installation and must be counted
-    let race_rounds: u64 = if ctx.thorough { 40_000 } else { 3_000 };
-    let mut race_hits = 0u64;
-    for (ri, &arm) in [Arm::WhenRet, Arm::Ret].iter().enumerate() {
-        let idx = trials.len() as u64 + ri as u64;
-        if !ctx.mine(idx) {
-            continue;
-        }
-        let class = format!("{:?}/N=1/call-races-with-the-installation", arm);
-        out::intent(idx, &class, &J::new().n("rounds", race_rounds).s("crash_sig", "install-race"));
-        let taddr = match arm {
-            Arm::WhenRet => tgt_a as usize,
-            _ => tgt_b as usize,
-        };
-        // learn what the patched entry looks like (same trampoline page every time in practice)
-        N_STATIC.store(0, Ordering::SeqCst);
-        let snap: Vec<u8> = {
-            let mut inj = ip::lib(InjectorPP::new);
-            ip::lib(|| install(&mut inj, arm, make(arm)));
-            let b = crate::maps::read_vec(taddr, 5).unwrap_or_default();
-            let _ = std::panic::catch_unwind(std::panic::AssertUnwindSafe(|| ip::lib(|| drop(inj))));
-            b
-        };
-        let snap = Arc::new(snap);
-        let mut sig = String::new();
-        let mut d = J::new();
-        let mut rounds_done = 0u64;
-        let mut early = 0u64;
-        for _ in 0..race_rounds {
-            N_STATIC.store(1, Ordering::SeqCst);
-            let stop = Arc::new(AtomicBool::new(false));
-            let (snap2, stop2) = (snap.clone(), stop.clone());
-            let h = std::thread::spawn(move || {
-                let mut buf = [0u8; 5];
-                loop {
-                    unsafe { std::ptr::copy_nonoverlapping(taddr as *const u8, buf.as_mut_ptr(), 5) };
-                    if buf[..] == snap2[..] {
-                        return Some(call(arm, true));
-                    }
-                    if stop2.load(Ordering::Relaxed) {
-                        return None;
-                    }
-                    std::hint::spin_loop();
-                }
-            });
-            let pair = make(arm);
-            let counter = counter_of(&pair.1).unwrap();
-            let mut inj = ip::lib(InjectorPP::new);
-            ip::lib(|| install(&mut inj, arm, pair));
-            // the worker has seen (or will at once see) the patch: wait for its single call
-            let t0 = Instant::now();
-            while !h.is_finished() && t0.elapsed().as_millis() < 200 {
-                std::hint::spin_loop();
-            }
-            stop.store(true, Ordering::SeqCst);
-            let r = h.join().unwrap_or(None);
-            let count = counter.load(Ordering::SeqCst);
-            let (dres, _) = panicobs::observe(|| ip::lib(|| drop(inj)));
-            rounds_done += 1;
-            match r {
-                Some(Ok(v)) if v == faked_value(arm) => {
-                    race_hits += 1;
-                    if count != 1 || dres.is_err() {
-                        sig = "call-absorbed-during-installation-was-not-counted".into();
-                        d = J::new().n("counter", count).s("exit", &dres.err().unwrap_or_else(|| "no-panic".into())).n("round", rounds_done);
-                        break;
-                    }
-                }
-                Some(Ok(_)) => early += 1, // reached the original: not a call of this installation
-                _ => {}
-            }
-        }
-        let d = d.n("rounds", rounds_done).n("calls_that_reached_the_fake", race_hits).n("calls_that_reached_the_original", early);
-        if sig.is_empty() && race_hits == 0 {
-            out::outcome(idx, &class, Verdict::Inconclusive, "the-worker-never-saw-the-patch", &d);
-        } else {
-            out::outcome(idx, &class, if sig.is_empty() { Verdict::Held } else { Verdict::Violated }, &sig, &d);
-        }
-    }
+    let race_hits = race_trials(ctx, trials.len() as u64);
     // ---- a call past the budget is rejected AT THE CALL whatever the caller is doing - also when it is made
     // by a destructor that runs while the calling thread unwinds from an unrelated, contained panic
     let mut unwinding_calls = 0u64;
@@ -549,7 +604,8 @@ pub fn run_c06(ctx: &Ctx) {
 // ---------------------------------------------------------------------------------- C07
 /// One lifetime through the shared set-up helper: same `fake!` expression every time, the harness
 /// does NOT touch the counter. Returns (outcomes of the c calls, exit outcome).
-fn helper_lifetime(arm: Arm, c: usize, end_in_panic: bool, prebuilt: Option<(FuncPtr, CallCountVerifier)>) -> (Vec<Result<i64, String>>, Result<(), String>) {
+fn helper_lifetime(arm: Arm, c: usize, end_in_panic: bool, prebuilt: Option<(FuncPtr, CallCountVerifier)>, on_alt_target: bool) -> (Vec<Result<i64, String>>, Result<(), String>) {
+    USE_ALT_TARGET.with(|f| f.set(on_alt_target));
     let mut calls = Vec::new();
     let mut prebuilt = prebuilt;
     let (r, _) = panicobs::observe(|| {
@@ -569,6 +625,7 @@ fn helper_lifetime(arm: Arm, c: usize, end_in_panic: bool, prebuilt: Option<(Fun
         }
         drop(inj);
     });
+    USE_ALT_TARGET.with(|f| f.set(false));
     (calls, r)
 }
 
@@ -637,6 +694,9 @@ pub fn run_c07(ctx: &Ctx) {
         for (li, &(c, pan)) in seq.iter().enumerate() {
             lifetimes += 1;
             let arm2 = *arm;
+            // sequences with index 2 mod 5 install the fake on a second function of the same shape in every other
+            // lifetime (where the arm has one): same source line, different target
+            let on_alt = idx % 5 == 2 && li % 2 == 1 && matches!(arm2, Arm::WhenRet | Arm::Ret);
             if li > 0 {
                 // something unrelated holds the library's lock between two lifetimes of the call site
                 match *between {
@@ -661,9 +721,9 @@ pub fn run_c07(ctx: &Ctx) {
                 if let Some(p) = pre {
                     std::mem::forget(p);
                 }
-                std::thread::spawn(move || helper_lifetime(arm2, c, pan, None)).join().unwrap()
+                std::thread::spawn(move || helper_lifetime(arm2, c, pan, None, on_alt)).join().unwrap()
             } else {
-                helper_lifetime(arm2, c, pan, pre)
+                helper_lifetime(arm2, c, pan, pre, on_alt)
             };
             // reference: the verdict is a function of (N, c) only
             let mut bad = None;
@@ -703,7 +763,9 @@ pub fn run_c07(ctx: &Ctx) {
             std::mem::forget(p);
         }
         let class = if prebuilt_mode { format!("{}/prebuilt", class) } else { class };
+        let class = if idx % 5 == 2 && matches!(arm, Arm::WhenRet | Arm::Ret) { format!("{}/other-target-every-second-lifetime", class) } else { class };
         out::outcome(idx, &class, if sig.is_empty() { Verdict::Held } else { Verdict::Violated }, &sig, &d);
     }
-    out::summary(&J::new().n("sequences_total", seqs.len()).n("lifetimes_run", lifetimes));
+    let race_hits = race_trials(ctx, seqs.len() as u64);
+    out::summary(&J::new().n("sequences_total", seqs.len()).n("lifetimes_run", lifetimes).n("calls_racing_with_a_later_installation_of_the_site", race_hits));
 }
